@@ -428,6 +428,9 @@ pub fn c08_quick() -> Vec<(Scenario, bool)> {
     v.push((base("rotate-loses", &m, &ad, &[], vec![act("A", ActKind::RotateId(0xA2), 20).then(vec![rename("A", "on-rotated", 40)]), rename("B", "winner", 10).then(vec![act("B", ActKind::Describe("d2".into()), 30)])]), true));
     // admin set and description
     v.push((base("admins-describe", &m, &ad, &[], vec![act("A", ActKind::Admins(vec!["A".into(), "C".into()]), 10).then(vec![act("C", ActKind::Describe("by-new-admin".into()), 20)]), act("B", ActKind::Describe("by-old-admin".into()), 15)]), true));
+    // the text fields at their boundary value: description set, cleared to the empty string, name cleared, description set again
+    // (seeded change C08-9: a sync that skips an empty value keeps the old text in the stored record)
+    v.push((base("text-set-clear", &m, &ad, &[], vec![act("A", ActKind::Describe("set".into()), 10).then(vec![act("B", ActKind::Describe(String::new()), 20).then(vec![rename("A", "", 30).then(vec![act("B", ActKind::Describe("again".into()), 40)])])])]), true));
     // non-admin self-update applied both ways, with a message
     v.push((base("selfupdate-msg", &m, &ad, &[], vec![msg("C", "c08-m"), act("C", ActKind::SelfUpdate, 10).then(vec![act("A", ActKind::SelfUpdate, 20)])]), true));
     v
